@@ -125,8 +125,8 @@ type verifMem struct {
 
 func (m *verifMem) WriteAtAddress(b []byte, addr uint64) error {
 	end := int(addr) + len(b)
-	for len(m.data) < end {
-		m.data = append(m.data, 0)
+	if len(m.data) < end {
+		m.data = append(m.data, make([]byte, end-len(m.data))...)
 	}
 	copy(m.data[addr:], b)
 	m.writes++
@@ -369,4 +369,40 @@ func VerifH_C14_load_other_node_size() {
 		vrt.Assert(again.records[i].HeapID == back.records[i].HeapID, "btree-persist-heapid")
 	}
 	vrt.Covered("btree-step-done")
+}
+
+// chunk index with more entries than one node can announce (65535, 65536, 65537 chunks; a 16-bit count): written by the
+// chunk index writer, read back by the reader's B-tree walk: every chunk is there with its address
+func VerifH_C01_chunk_index_many_thorough() {
+	vrt.LoopBound(200000)
+	n := 65535 + vrt.Choice(3)
+	w := NewChunkBTreeWriter(1)
+	probe := []int{0, 1, 65534, 65535, n - 1}[vrt.Choice(5)]
+	vrt.Assume(probe < n)
+	pa := vrt.U64() & 0x0000FFFFFFFFFFFF
+	for i := 0; i < n; i++ {
+		addr := uint64(4096 + 8*i)
+		if i == probe {
+			addr = pa
+		}
+		vrt.AssertNoErr(w.AddChunkWithSize([]uint64{uint64(i)}, addr, 4), "add-chunk-ok")
+	}
+	mem := &verifMem{next: 64}
+	root, err := w.WriteToFile(mem, mem)
+	if err != nil {
+		vrt.Covered("chunk-index-checked") // a refusal is acceptable; silent loss is not
+		return
+	}
+	node, err := core.ParseBTreeV1Node(mem, root, 8, 1, []uint64{1})
+	vrt.AssertNoErr(err, "chunk-index-parses")
+	if err != nil {
+		return
+	}
+	chunks, err := node.CollectAllChunks(mem, 8, []uint64{1})
+	vrt.AssertNoErr(err, "chunk-index-walk-ok")
+	vrt.Assert(len(chunks) == n, "every-chunk-indexed")
+	if len(chunks) == n {
+		vrt.Assert(chunks[probe].Key.Scaled[0] == uint64(probe) && chunks[probe].Address == pa, "chunk-address-as-written")
+	}
+	vrt.Covered("chunk-index-checked")
 }
